@@ -135,6 +135,34 @@ pub fn run(em: &mut Emit, thorough: bool, seed: u64) {
         m.insert(b, Value::Int(20));
         emit_value(em, &Value::Map(Map { map: Arc::new(m) }), "collide");
     }
+    // long and deep values: sizes around buffer / chunk thresholds (base64 groups of three bytes
+    // included), nesting to depth 40
+    for n in (0..=70usize).chain([127, 128, 129, 255, 256, 257, 1000, 1001, 1002]) {
+        emit_value(em, &Value::Bytes(Arc::new((0..n).map(|i| (i * 7 % 256) as u8).collect())), "long");
+        if n > 12 && !(15..=17).contains(&n) && !(31..=33).contains(&n) && !(63..=65).contains(&n) && n < 127 {
+            continue;
+        }
+        emit_value(em, &Value::List(Arc::new((0..n).map(|i| Value::Int(i as i64)).collect())), "long");
+        emit_value(em, &Value::String(Arc::new("é\"".repeat(n))), "long");
+        let mut m = HashMap::new();
+        for i in 0..n {
+            m.insert(Key::Int(i as i64), Value::UInt(i as u64));
+        }
+        emit_value(em, &Value::Map(Map { map: Arc::new(m) }), "long");
+    }
+    for depth in [8usize, 16, 32, 40] {
+        let mut v = Value::Int(1);
+        for i in 0..depth {
+            v = if i % 2 == 0 {
+                Value::List(Arc::new(vec![v]))
+            } else {
+                let mut m = HashMap::new();
+                m.insert(Key::String(Arc::new("k".into())), v);
+                Value::Map(Map { map: Arc::new(m) })
+            };
+        }
+        emit_value(em, &v, "deep");
+    }
     let n = if thorough { 400_000 } else { 15_000 };
     for _ in 0..n {
         let depth = rng.below(6) as u32;
